@@ -247,7 +247,7 @@ func c17Run(c *Ctx) {
 			EmptySec: r.Intn(6) == 0, Via: pick(r, []string{"bytes", "bytes", "reader", "file"}), Edits: c17GenEdits(r, r.Intn(9))}
 		c.Do("manifest", cs)
 	}
-	for i := 0; i < c.N(1200); i++ {
+	for i := 0; i < c.N(900); i++ {
 		c.Tick()
 		c.Do("embedded", c17GenEmb(r))
 	}
